@@ -427,6 +427,7 @@ type Contract struct {
 	AtCalls  []*Clause // call-site assertions inside this function
 	Touches  []string  // extern: params whose per-object ghost state becomes unknown
 	Fresh    bool      // extern: the first result is a newly allocated object
+	NoWrap   bool      // signed 64-bit arithmetic is proved overflow-free and then treated as mathematical
 }
 
 type SpecFunc struct {
@@ -678,6 +679,8 @@ func addClause(c *Contract, cl *Clause) {
 		c.Touches = append(c.Touches, cl.Names...)
 	case "fresh":
 		c.Fresh = true
+	case "nowrap":
+		c.NoWrap = true
 	}
 }
 
@@ -763,7 +766,7 @@ func parseClause(word, rest string) (*Clause, error) {
 			return nil, err
 		}
 		cl.Expr = e
-	case "inline", "trusted", "pure", "fresh":
+	case "inline", "trusted", "pure", "fresh", "nowrap":
 		cl.Kind = word
 	case "mayexit":
 		cl.Kind = "mayexit"
